@@ -31,6 +31,8 @@ RULE = ('operation scripts over up to three density_sketch<double, Kernel> regis
         'points, sorted iteration, serialize/deserialize into another register; three kernels: an exact dyadic compact-support kernel, a '
         'signed asymmetric kernel (argument order, all-promoted compactions), the library Gaussian kernel on the lattice 40Z^d (values exactly '
         '0/1) and on near points without compaction; directed cases script the choices (all-zero bits, all-one bits); '
+        'big-n cases: a sketch merged 33..40 times with a copy of itself (copy by merge into a fresh sketch or by serialize/deserialize), n observed '
+        'after every merge, then merged into a fresh and into a non-empty sketch; '
         'non-trivial = the case has a compaction or a merge, or at least 8 updates and one estimate')
 TRUSTED = ['random choices are read from the hook source and passed to the model; their generation is not modelled',
            'gaussian_kernel on the lattice 40Z^d: exp(-0.0) == 1 and exp(-x) == 0 for x >= 1600 in any libm (the only libm values the '
@@ -38,7 +40,9 @@ TRUSTED = ['random choices are read from the hook source and passed to the model
            'harness kernels return dyadic values with at most 21 significant bits, so the double sums in compact_level are exact and the model '
            'decides the same signs over Z; get_estimate divides each term by n, so the estimate is compared with the exact rational within the '
            'rigorous rounding bound (terms+2) * 2^-52 * sum|terms| (exact equality is implied when n is a power of two)']
-ASSUMPTIONS = ['uint32/uint64 counters and 1 << height do not overflow (fewer than 31 levels)',
+ASSUMPTIONS = ['the model counts n in Z (unbounded): n up to 2^40 is exercised (a sketch merged 33..40 times with a copy of itself, so any 32-bit '
+               'truncation of n is visible); n >= 2^64 (wrap of the uint64 counter), num_retained >= 2^32 and 31 or more levels (1 << height in '
+               'get_estimate) are outside the model and not exercised',
                'self-merge (a.merge(a)) is not exercised here: it is a use-after-free in std::copy/back_inserter, left to C19',
                'the error guarantee of the coreset after compaction (discrepancy bound) is statistical and not claimed']
 
@@ -181,6 +185,38 @@ def gen_directed(rng, ci):
         tags = ['wrong-dim', 'merge']
     return dict(id='d%d' % ci, ops=ops, tags=tags)
 
+def gen_big_n(rng, ci):
+    """n beyond 32 bits in microseconds: b := copy of a; a.merge(b), 33..40 times (n doubles every time), n observed after every merge.
+       Signed kernel with odd first coordinates and all-zero scripted choices: every compaction drops its whole level, so the retained
+       count and the number of levels stay tiny while n grows; a few updates in between keep some points retained.  The copy is made by
+       merging into a fresh sketch (even cases) or by serialize/deserialize (odd cases).  Then the big sketch is merged into a fresh
+       and into a non-empty sketch, with getters, iteration and estimates."""
+    k = rng.choice([2, 3, 4]); dim = rng.choice([1, 2]); kind = 1
+    def p():
+        return [2 * rng.randrange(-3, 3) + 1] + [rng.randrange(-3, 4) for _ in range(dim - 1)]
+    Z = [98] + [0] * 48
+    ops = [[1, 0, k, dim, kind]]
+    for _ in range(rng.randrange(1, k + 1)):
+        ops += [Z, [2, 0] + p()]
+    rounds = rng.randrange(33, 41)
+    for j in range(rounds):
+        if ci % 2 == 0:
+            ops += [[1, 1, k, dim, kind], Z, [3, 1, 0]]
+        else:
+            ops += [[7, 0, 1]]
+        ops += [Z, [3, 0, 1], [4, 0]]
+        if rng.random() < 0.3:
+            ops += [Z, [2, 0] + p(), [4, 0]]
+        if j in (31, 32, rounds - 1):
+            ops += [[4, 1], [6, 0], [5, 0] + p()]
+    for _ in range(rng.randrange(0, k)):
+        ops += [Z, [2, 0] + p()]
+    ops += [[4, 0], [6, 0], [5, 0] + p(),
+            [1, 2, k, dim, kind], Z, [3, 2, 0], [4, 2], [6, 2], [5, 2] + p(),
+            [1, 3, k, dim, kind], Z, [2, 3] + p(), Z, [3, 3, 0], [4, 3], [6, 3], [5, 3] + p(),
+            [7, 0, 1], [4, 1], [5, 1] + p()]
+    return dict(id='b%d' % ci, ops=ops, tags=['big-n', 'merge', 'compaction', KINDS[kind]])
+
 def gen(rng, tier):
     q = tier == 'quick'
     cases = []
@@ -192,6 +228,8 @@ def gen(rng, tier):
         cases.append(gen_near_gauss(rng, ci))
     for ci in range(48 if q else 400):
         cases.append(gen_directed(rng, ci))
+    for ci in range(8 if q else 40):
+        cases.append(gen_big_n(rng, ci))
     return cases
 
 def dbl(bits):
